@@ -193,6 +193,12 @@ def scenarios(rng: random.Random, tier: str):
             evs += ["adv 1", f"rxraw 0 {big[i:i + step].hex()}"]
         evs += ["adv 1", "adv 1", f"adv {idle}", f"adv {dwa + 1}"]
         out.append(line + " | " + " | ".join(evs))
+    # the peer sends the beginning of a message and falls silent: idle, watchdog request, no answer, closed
+    for idle, dwa in ((3, 2), (5, 3)):
+        for k in (1, 12, 20, 40):
+            line = cfg_line(idle, dwa)
+            out.append(line + " | start | acc | rx 0 " + nodegen.cer("peer1.x", "4", nxt(), nxt()) + f" | adv 1 | rxraw 0 {big[:k].hex()}" +
+                       f" | adv {idle} | adv 1 | adv {dwa} | adv 1 | adv 1")
     # two connections: one keeps talking (every read finds the clock advanced, no pass without a ready socket), the other is
     # silent: it gets its DWR when its idle timeout has passed and is given up when no DWA comes
     two_cfg = ("NODE host=node.local;realm=realm.local;idle={i};dwa={d};cer=50;cea=50;"
